@@ -107,12 +107,12 @@ pub struct Scenario {
     pub avail: usize,
     pub max_len: Option<u32>,
     /// construct the reader with `with_buffer` and a recycled buffer (stale content, spare capacity)
-    pub dirty: bool,
+    pub ctor: u8,
 }
 
 impl Scenario {
     fn json(&self) -> serde_json::Value {
-        json!({"frames": describe(&self.frames), "stream_hex": refmodel::hex(&wire(&self.frames)), "bytes_before_end_of_stream": self.avail, "max_len": self.max_len, "with_buffer": self.dirty})
+        json!({"frames": describe(&self.frames), "stream_hex": refmodel::hex(&wire(&self.frames)), "bytes_before_end_of_stream": self.avail, "max_len": self.max_len, "constructor": self.ctor})
     }
 }
 
@@ -149,7 +149,7 @@ pub fn run_logged(sc: &Scenario, lim: Limits, ch: SharedChooser, obs_out: &mut O
         ch: ch.clone(),
         log: if verbose { Some(Vec::new()) } else { None },
     }));
-    let mut reader = if sc.dirty { AsyncReader::with_buffer(Src(st.clone()), dirty_buffer()) } else { AsyncReader::new(Src(st.clone())) };
+    let mut reader = if sc.ctor != 0 { AsyncReader::with_buffer(Src(st.clone()), dirty_buffer(sc.ctor)) } else { AsyncReader::new(Src(st.clone())) };
     let max_len = match sc.max_len {
         Some(m) => {
             reader.set_max_len(m);
@@ -175,6 +175,12 @@ pub fn run_logged(sc: &Scenario, lim: Limits, ch: SharedChooser, obs_out: &mut O
             break;
         }
         issued += 1;
+        if sc.ctor != 0 {
+            // a frame may be in flight (dropped future / transient error): the setter must not disturb it
+            let in_flight = reader.verif_state().2;
+            reader.set_max_len(in_flight.saturating_sub(1) as u32);
+            reader.set_max_len(max_len as u32);
+        }
         let errors_before = st.borrow().errors;
         let mut fut = Box::pin(reader.read::<Vec<u8>>());
         let mut polls = 0u32;
@@ -282,9 +288,13 @@ pub fn scenarios(tier: Tier) -> (Vec<Scenario>, Limits, String) {
                 if avail < total && !(ml.is_none() || ml == Some(largest)) {
                     continue;
                 }
-                out.push(Scenario { frames: fs.clone(), avail, max_len: ml, dirty: false });
+                out.push(Scenario { frames: fs.clone(), avail, max_len: ml, ctor: 0 });
                 if ml.is_none() && avail == total {
-                    out.push(Scenario { frames: fs.clone(), avail, max_len: ml, dirty: true });
+                    out.push(Scenario { frames: fs.clone(), avail, max_len: ml, ctor: 1 });
+                    if fs.len() <= 1 {
+                        out.push(Scenario { frames: fs.clone(), avail, max_len: ml, ctor: 2 });
+                        out.push(Scenario { frames: fs.clone(), avail, max_len: ml, ctor: 3 });
+                    }
                 }
             }
         }
@@ -293,7 +303,12 @@ pub fn scenarios(tier: Tier) -> (Vec<Scenario>, Limits, String) {
     for big in large_frames() {
         let l = big.payload.len();
         let huge = l > 1000;
-        if huge && tier == Tier::Quick && l != 65536 {
+        if huge && tier == Tier::Quick && l != 65536 && l < 500_000 {
+            continue;
+        }
+        if l >= 500_000 {
+            let fs = vec![big.clone()];
+            out.push(Scenario { frames: fs.clone(), avail: wire(&fs).len(), max_len: None, ctor: 0 });
             continue;
         }
         let seqs = if huge || tier == Tier::Quick { vec![vec![big.clone()]] } else { vec![vec![big.clone()], vec![kinds[0].clone(), big.clone()]] };
@@ -302,10 +317,10 @@ pub fn scenarios(tier: Tier) -> (Vec<Scenario>, Limits, String) {
             let lead = if fs.len() == 1 { 0 } else { 4 + kinds[0].payload.len() };
             let cuts = if huge { vec![total, total - 1, lead + 4 + l / 2] } else { vec![total, total - 1, lead + 4 + l / 2, lead + 4, lead + 3] };
             for avail in cuts {
-                out.push(Scenario { frames: fs.clone(), avail, max_len: None, dirty: false });
+                out.push(Scenario { frames: fs.clone(), avail, max_len: None, ctor: 0 });
             }
-            out.push(Scenario { frames: fs.clone(), avail: total, max_len: Some(l as u32), dirty: true });
-            out.push(Scenario { frames: fs.clone(), avail: total, max_len: Some(l as u32 - 1), dirty: false });
+            out.push(Scenario { frames: fs.clone(), avail: total, max_len: Some(l as u32), ctor: 1 });
+            out.push(Scenario { frames: fs.clone(), avail: total, max_len: Some(l as u32 - 1), ctor: 0 });
         }
     }
     // hostile declared lengths, always last, full stream and one truncation
@@ -314,8 +329,8 @@ pub fn scenarios(tier: Tier) -> (Vec<Scenario>, Limits, String) {
             let mut fs = lead.clone();
             fs.push(h.clone());
             let total = wire(&fs).len();
-            out.push(Scenario { frames: fs.clone(), avail: total, max_len: None, dirty: false });
-            out.push(Scenario { frames: fs.clone(), avail: total, max_len: Some(8), dirty: true });
+            out.push(Scenario { frames: fs.clone(), avail: total, max_len: None, ctor: 0 });
+            out.push(Scenario { frames: fs.clone(), avail: total, max_len: Some(8), ctor: 1 });
         }
     }
     out.sort_by_key(|s: &Scenario| std::cmp::Reverse(s.avail));
@@ -406,7 +421,7 @@ pub fn replay_case(case: &serde_json::Value) -> Result<(), String> {
         frames,
         avail: sc["bytes_before_end_of_stream"].as_u64().unwrap() as usize,
         max_len: sc["max_len"].as_u64().map(|x| x as u32),
-        dirty: sc["with_buffer"].as_bool().unwrap_or(false),
+        ctor: sc["constructor"].as_u64().unwrap_or(0) as u8,
     };
     let choices: Vec<u32> = case["choices"].as_array().unwrap().iter().map(|x| x.as_u64().unwrap() as u32).collect();
     let l = &case["limits"];
